@@ -67,7 +67,7 @@ Definition fout_eqb (a b : fout) : bool := if fout_eq_dec a b then true else fal
    j5.ext / j5.list annotations and the description are
    C04's business *)
 Definition c12_proj (o : fout) : fout :=
-  FO (fo_json o) (fo_number o) (fo_kind o) (fo_rep o) (fo_opt o) (fo_pres o) (fo_val o) None None None [].
+  FO (fo_json o) (fo_name o) (fo_number o) (fo_kind o) (fo_rep o) (fo_opt o) (fo_pres o) (fo_val o) None None None [].
 
 (* compile outcome: only the kind of failure is compared *)
 Definition out_agree (m : outcome fout) (o : outcome fout) : bool :=
